@@ -1,5 +1,6 @@
-(* Generic driver: argv.(1) names a run function; each stdin line is a list of
-   non-negative integers (a case); the result list is printed on one line. *)
+(* Generic driver of an extracted model: each stdin line is a list of
+   non-negative integers (a case); the result list of @RUN@ is printed on one
+   line.  tools/vlib.py substitutes the run function's name. *)
 open Models
 
 let rec pos_of_int (n : int) : positive =
@@ -14,21 +15,14 @@ let rec int_of_pos (p : positive) : int =
 
 let int_of_n (x : n) : int = match x with N0 -> 0 | Npos p -> int_of_pos p
 
-let table : (string * (n list -> n list)) list = [
-  ("c11", run_c11);
-]
-
 let () =
-  let name = Sys.argv.(1) in
-  let f = try List.assoc name table with Not_found ->
-    prerr_endline ("unknown model " ^ name); exit 2 in
   let buf = Buffer.create 4096 in
   (try
     while true do
       let line = input_line stdin in
       let toks = List.filter (fun s -> s <> "") (String.split_on_char ' ' (String.trim line)) in
       let case = List.map (fun s -> n_of_int (int_of_string s)) toks in
-      let out = f case in
+      let out = @RUN@ case in
       Buffer.clear buf;
       List.iteri (fun i x ->
         if i > 0 then Buffer.add_char buf ' ';
